@@ -14,6 +14,7 @@ func init() {
 	commands["sqli-api"] = cmdSQLiAPI
 	commands["sqli-modes"] = cmdSQLiModes
 	commands["sqli-lex"] = cmdSQLiLex
+	commands["sqli-pump"] = cmdSQLiPump
 }
 
 var allFlags = []int{9, 17, 10, 18, 12, 20}
@@ -484,6 +485,49 @@ func cmdSQLiLex(args []string) int {
 			fl = *il.Mode
 		}
 		writeJSON(w, safeLex(i2b(il.In), fl))
+	}
+	return 0
+}
+
+// cmdSQLiPump: vh sqli-pump <cases.ndjson> <size> <maxstack>: like xss-pump, for IsSQLi.
+func cmdSQLiPump(args []string) int {
+	sc, cin := openIn(args[0])
+	defer cin()
+	var size, maxstack int
+	fmt.Sscan(args[1], &size)
+	fmt.Sscan(args[2], &maxstack)
+	debugSetMaxStack(maxstack)
+	i := 0
+	for sc.Scan() {
+		var c struct {
+			Pre []int `json:"pre"`
+			Rep []int `json:"rep"`
+		}
+		if err := json.Unmarshal(sc.Bytes(), &c); err != nil {
+			fatal(err)
+		}
+		fmt.Printf("start %d\n", i)
+		os.Stdout.Sync()
+		buf := make([]byte, 0, size+len(c.Pre)+len(c.Rep))
+		for _, v := range c.Pre {
+			buf = append(buf, byte(v))
+		}
+		for len(buf) < size && len(c.Rep) > 0 {
+			for _, v := range c.Rep {
+				buf = append(buf, byte(v))
+			}
+		}
+		msg := func() (m string) {
+			defer func() {
+				if x := recover(); x != nil {
+					m = fmt.Sprint(x)
+				}
+			}()
+			lib.IsSQLi(string(buf))
+			return ""
+		}()
+		fmt.Printf("done %d %v %q\n", i, true, msg)
+		i++
 	}
 	return 0
 }
